@@ -26,7 +26,7 @@ LEVEL_TEXT = ("Scenarios with continuous release, deaths by IBM age limit and by
 LEVEL_NOTE = ("Tolerance 1e-9 with float64 forcing files, 2e-6 relative (f4 output precision) with float32 forcing files because u += dU accumulates in a different order after a restart. An additional final "
               "record at the stop time in the restarted run and a different default reference time are documented behaviour and are not judged.")
 RULE = ("case = scenario; every completed file except the last is a restart point. Non-trivial restart point: particles are released and die after it; distinct by scenario parameters and file index.")
-MANDATORY = ["forcing_frames_between_model_steps", "forcing_in_several_files", "restart_between_forcing_files", "restart_points", "records_compared", "newest_pids_dead_in_last_record", "newest_pids_dead_in_last_record_no_particle_variables", "new_release_after_restart", "death_after_restart", "left_grid", "duration_not_multiple_of_period", "scheme_EF", "scheme_RK2", "scheme_RK4",
+MANDATORY = ["release_file_time_off_the_frequency_axis", "output_root_ending_in_digit_or_underscore", "forcing_frames_between_model_steps", "forcing_in_several_files", "restart_between_forcing_files", "restart_points", "records_compared", "newest_pids_dead_in_last_record", "newest_pids_dead_in_last_record_no_particle_variables", "new_release_after_restart", "death_after_restart", "left_grid", "duration_not_multiple_of_period", "scheme_EF", "scheme_RK2", "scheme_RK4",
              "particle_variable_compared", "file_names_compared"]
 ASSUMPTIONS = ["diffusion off (as the property states)", "sparse layout (warm start reads particle_count)"]
 TIMEOUT = {"quick": 1200, "thorough": 3500}
@@ -76,6 +76,8 @@ def build(case: dict[str, Any]):
                  vert=dict(Vtransform=2, Vstretching=4, theta_s=3.0, theta_b=0.5, hc=10.0),
                  scalars=dict(temp=dict(kind="random", seed=case["idx"], lo=2.0, hi=12.0)), scalar_store="f8")
     freq = int(rng.choice([1, 1, 2]))
+    if case["idx"] % 4 == 0:
+        freq = 2  # these scenarios get a file time off the frequency axis (below)
     rows = []
     for k in range(int(rng.integers(2, 5))):
         near = rng.random() < 0.4
@@ -85,6 +87,12 @@ def build(case: dict[str, Any]):
     if rng.random() < 0.5:
         t2 = str(tadd(C.T0, int(rng.integers(2, max(3, ns // 2))) * freq * dt))
         rows.append([t2, 9.5, 8.5, 3.0])
+    offaxis = False
+    if freq == 2 and case["idx"] % 4 == 0 and ns > 6:
+        # a later file time that is not on the release-frequency axis anchored at the first file time
+        rows.append([str(tadd(C.T0, (2 * int(rng.integers(1, max(2, ns // 2 - 1))) + 1) * dt)), 10.5, 9.5, 4.0])
+        rows.sort(key=lambda r: r[0])
+        offaxis = True
     lifetime = int(rng.integers(3, max(4, ns // 2))) * dt
     scheme = ["EF", "RK2", "RK4"][case["idx"] % 3]
     if case.get("gap"):
@@ -115,7 +123,7 @@ def build(case: dict[str, Any]):
                           default_values=dict(age=0.0, weight=1.0, temp=0.0)),
                ibm=dict(module=C.REC_IBM, age=True, lifetime=lifetime, weight_from="temp", weight_from_position=True, log=False),
                output=dict(period=P * dt, numrec=numrec, instance=dict(pid="i4", X="f8", Y="f8", Z="f8", age="f8", weight="f8", temp="f8"), particle=dict(release_time="f8") if pvars else {}))
-    return dict(world=world, run=run), dict(P=P, numrec=numrec, ns=ns, dt=dt, scheme=scheme, store=store, freq=freq, lifetime=lifetime, pvars=pvars, offgrid=bool(offgrid))
+    return dict(world=world, run=run), dict(P=P, numrec=numrec, ns=ns, dt=dt, scheme=scheme, store=store, freq=freq, lifetime=lifetime, pvars=pvars, offgrid=bool(offgrid), offaxis=bool(offaxis and not case.get("gap") and not case.get("newest_dead")))
 
 
 def decode_pvar(f, name):
@@ -138,6 +146,9 @@ def run_case(case: dict[str, Any], wd: Path) -> dict[str, Any]:
     with Hooks() as hk:
         from ladim.tracker import Tracker  # noqa: PLC0415
 
+        root = ["out", "exp2", "a_b_", "x10"][case["idx"] % 4]  # output file roots, also ending in digits or an underscore
+        scn["run"]["output"]["filename"] = f"{root}.nc"
+        sit["output_root_ending_in_digit_or_underscore"] = int(root != "out")
         outcheck.snapshot_hook(hk, snaps)
         hk.wrap(Tracker, "update", lambda self: int(np.sum(self.modules["state"].alive)),
                 lambda tok, res, self: left.__setitem__(0, left[0] + tok - int(np.sum(self.modules["state"].alive))))
@@ -146,6 +157,7 @@ def run_case(case: dict[str, Any], wd: Path) -> dict[str, Any]:
     sit["duration_not_multiple_of_period"] = int(par["ns"] % par["P"] != 0)
     sit["forcing_in_several_files"] = int(len(scn["world"]["files"]) > 1)
     sit["forcing_frames_between_model_steps"] = int(par.get("offgrid", False))
+    sit["release_file_time_off_the_frequency_axis"] = int(par.get("offaxis", False))
     if not resA.ok:
         # the uninterrupted run is the reference; its own failures are C06/C07's subject
         return C.result([], sit, cnt, nontrivial=False, key=str(case["idx"]), sample=desc, void=True, note=f"uninterrupted run failed: {resA.exc}")
@@ -174,7 +186,7 @@ def run_case(case: dict[str, Any], wd: Path) -> dict[str, Any]:
         if any(fr_s[c - 1] < t_rs < fr_s[c] for c in cuts):
             sit["restart_between_forcing_files"] = sit.get("restart_between_forcing_files", 0) + 1
         run2 = dict(scn["run"], warm_start=dict(filename=str(fk.path), variables=(["release_time"] if par["pvars"] else []) + ["age", "weight", "temp"]))
-        run2["output"] = dict(scn["run"]["output"], filename=f"out_{k + 1:03d}.nc")
+        run2["output"] = dict(scn["run"]["output"], filename=f"{root}_{k + 1:03d}.nc")
         sub = wd / f"B{k}"
         resB, confB, _ = run_scenario(dict(world=None, run=run2), sub, world=world)
         d2 = dict(desc, restart_file=fk.path.name, restart_time=str(t_restart), pid_gap=bool(pid_gap))
